@@ -13,3 +13,9 @@ pub fn c16_rotation_label() {
     assert!(q.degrees().to_bits() == deg.to_bits(), "C16 degrees() reports the stored angle");
     assert!(q.coords() == c, "C16 coords() returns the coordinates passed in");
 }
+
+#[kani::proof]
+pub fn c16_constants() {
+    crate::vcover!();
+    assert!((Qibla::KAABA_LATITUDE - 21.4233).abs() <= 1e-4 && (Qibla::KAABA_LONGITUDE - 39.8233).abs() <= 1e-4, "C16 the Kaaba is at 21.4233 N, 39.8233 E");
+}
